@@ -271,6 +271,36 @@ def run(ctx):
             ctx.count("P", "input_form:%s" % form)
             if len(rows) == len(mapped):
                 keeps_map(rows, form)
+        # rows of whatever provenance that come back must be map-free: batches that also hold a row the pipeline cannot split (agent
+        # form, no separator), and dict rows that already carry an `input_reaction` column (the records of an earlier run fed in again,
+        # e.g. one made with remove_aam switched off)
+        def any_map(rows, what, extra):
+            for r in rows:
+                ctx.evaluations += 1
+                for col in ("reaction", "input_reaction"):
+                    v = r.get(col) if isinstance(r, dict) else None
+                    if isinstance(v, str) and re.search(r":\d+\]", v):
+                        ctx.fail("pipeline-output-keeps-atom-map", dict({"form": what}, **extra), {"column": col, "value": v})
+                        return
+        for bad in ("CCO>CC>CCO", "C"):
+            ins = mapped[:2] + [bad] + mapped[2:5]
+            try:
+                rows = Balancer(n_jobs=1, batch_size=3).rebalance(list(ins), output_dict=True)
+            except Exception:
+                ctx.count("P", "malformed_batch_raised"); continue
+            ctx.count("P", "batches_with_a_malformed_row")
+            any_map(rows, "list-of-str with a malformed row", {"inputs": ins, "batch_size": 3})
+        b0 = Balancer(n_jobs=1); b0.remove_aam = False
+        first = b0.rebalance(list(mapped[:6]), output_dict=True)
+        fed = [{"reaction": r["reaction"], "input_reaction": r["input_reaction"], "solved_by": r.get("solved_by")} for r in first]
+        fed2 = [{"reaction": m, "input_reaction": m} for m in mapped[:6]]
+        for what, src in (("records of an earlier run (remove_aam off) fed in again", fed), ("dict rows that already carry input_reaction", fed2)):
+            try:
+                rows = Balancer(n_jobs=1).rebalance([dict(d) for d in src], output_dict=True)
+            except Exception:
+                ctx.count("P", "fed_back_rows_raised"); continue
+            ctx.count("P", "fed_back_row_runs")
+            any_map(rows, what, {"inputs": [d["reaction"] for d in src]})
         bal = Balancer(n_jobs=1, cache=True, cache_dir=os.path.join(tmpd, "cache"), batch_size=4)
         bal.remove_aam = False
         bal.rebalance(list(mapped), output_dict=True)
